@@ -370,7 +370,8 @@ CHECKS = {
         rule="non-trivial = history with >=2 rewarded epochs for >=2 contracts, >=1 long slot skip (missed momentums) and >=1 "
              "successful collect",
         assumptions=HIST_ASSUME,
-        jobs=[dict(test="TestC11", quick=T(8, 14, 70), thorough=T(16, 120, 100, 3000))],
+        jobs=[dict(test="TestC11", quick=T(6, 14, 70), thorough=T(12, 120, 100, 3000)),
+              dict(test="TestC11Reorg", quick=T(2, 12), thorough=T(4, 150, 0, 3000))],
     ),
     "C14": dict(
         level="exploration",
